@@ -262,7 +262,7 @@ def replay_merge(prop, case):
     env.install()
     pr = merge_pair_case(env.spec_by_name(case["cls"]), case["old"], case["new"], random.Random(0))
     if pr:
-        print(f"VIOLATION property={prop} replay=(reproduced) {pr[0]}")
+        print(f"VIOLATION property={prop} replay={__import__('os').environ.get('VERIF_REPLAY_PATH', '-')} {pr[0]}")
         return 1
     print("not reproduced on this tree")
     return 0
